@@ -203,7 +203,7 @@ def shards(tier):
                 if ov not in (1, 3):
                     c.update(init2=False)
                 out.append(dict(name='ov%d_d%d%d' % (ov, ds1, ds2), module='harness.c06', fn='prog', consts=c,
-                                budget_s=60 if q else 600))
+                                budget_s=40 if q else 600))
     return out
 
 
